@@ -137,6 +137,15 @@ def c17_case(draw):
     tape = draw(gen.tapes(90))
     return dict(config=cfg, tape=tape,
                 compression=draw(st.sampled_from([True, True, False])),
+                # standalone commentary lines between the action lines (PHH
+                # syntax): they are not part of the hand
+                notes=draw(st.one_of(
+                    st.none(), st.none(),
+                    st.lists(st.integers(0, 60), min_size=1, max_size=4),
+                    st.just(list(range(0, 80, 2))),
+                    st.just(list(range(1, 80, 3))))),
+                eol=draw(st.sampled_from(['\n', '\n', '\r\n'])),
+                eol_last=draw(st.booleans()),
                 truncate=draw(st.one_of(st.none(), st.none(),
                                         st.integers(0, 50))))
 
@@ -194,6 +203,12 @@ def check(case, stats):
                     finishing_stacks=list(s.stacks))
             else:
                 h = HandHistory.from_game_state(s._pkv_game, s, comp, hand=7)
+            if case.get('notes'):
+                acts = list(h.actions)
+                for k, pos in enumerate(sorted(case['notes'])):
+                    acts.insert(min(len(acts), pos + k), f'# note {k}')
+                h.actions = acts
+                stats.count('class:standalone_commentary_lines')
             # ---- Pluribus ------------------------------------------------
             actions, hole, _, board, _ = render(ops, n, variant)
             line = None
@@ -294,6 +309,31 @@ def check(case, stats):
                             out.append(V(ID, 'regenerated_line_differs', '',
                                          f'{again} vs {line}'))
                             return out
+                    # a log of several lines, with the line ends the protocol
+                    # itself uses (its messages end in CR LF) or a file has,
+                    # is the same hands
+                    eol = case.get('eol') or '\n'
+                    text = line + eol + line + (eol if case.get('eol_last')
+                                                else '')
+                    stats.count('class:two_line_log_eol_' + repr(eol))
+                    try:
+                        two = list(HandHistory.from_acpc_protocol(
+                            s._pkv_game, cfg['stacks'][0], text,
+                            error_status=True))
+                        same = len(two) == 2 and all(
+                            list(t.players or []) == list(hhs[0].players or [])
+                            and list(t.actions) == list(hhs[0].actions)
+                            for t in two)
+                    except Exception as e:  # noqa: BLE001
+                        if not _is_engine_exception(e):
+                            raise     # harness fault: exit 2
+                        two, same = repr(e), False
+                    if not same:
+                        out.append(V(ID, 'log_line_ends', repr(eol),
+                                     f'two copies of {line!r} joined by'
+                                     f' {eol!r} gave'
+                                     f' {[ (t.players, t.actions) for t in two] if isinstance(two, list) else two}'))
+                        return out
     streets_with_raise = set()
     street = 0
     for o in ops:
